@@ -37,8 +37,11 @@ func Run(r *mc.Run) {
 	h := hooks(r)
 	r.SetExtra("imports_per_block", h.Imports)
 	if r.Quick() {
-		r.SetBudget(230e9) // 170 s before the real-miner-worker oracles were added
-		runForks(r)        // first: cheap, and independent of the exploration budget
+		r.SetBudget(330e9)
+		runForks(r) // first: cheap, and independent of the exploration budget
+		runLongForks(r)
+		// inactivity slashing on, two extra senators that never propose: several validators are slashed in one block
+		chainx.Explore(r, h, []chainx.ParamCfg{inactCfg()}, []string{"c1:", "s1:", "c1:xfer", "c1:!dsign(s1)"}, 4, 0)
 		// the builder's failure branches (ApplyTransaction error after a state change, nonce gaps behind it, two senders in one block)
 		chainx.Explore(r, h, []chainx.ParamCfg{noForced}, chainx.MenuBuilderPaths, 2, 1)
 		chainx.Explore(r, h, []chainx.ParamCfg{noForced}, chainx.MenuCore, 3, 2)
@@ -51,6 +54,8 @@ func Run(r *mc.Run) {
 	}
 	if !r.Quick() {
 		runForks(r)
+		runLongForks(r)
+		chainx.Explore(r, h, []chainx.ParamCfg{inactCfg()}, chainx.MenuCore, 4, 2)
 	}
 	if h.Worker {
 		r.Rule += "; REAL BUILDER: every block of every explored history (and of every scripted prefix) is also assembled by the real miner worker (miner.worker.commitNewWork: makeCurrent, commitTransactions, EndBlock(isSeal=true), commit; through the build-tagged hook miner.VerifBuildBlock) from a real core.TxPool holding the block's transactions, on a database copy of the pre-block node with the same pending evidences: (i) its block must be accepted unchanged by InsertChain on another database copy of the pre-block node and become head, (ii) it must agree with the mirror builder's block on parent, number, coinbase, gas limit, the five version-state fields, slash data, transactions (set and root), gas used, gas rewards, subsidy, receipts root, bloom, staking/validator/state root, mix digest, extra and the consensus byte fields; when the worker orders transactions of different senders differently (equal gas price: map order inside types.TransactionsByPriceAndNonce) or the pool refuses a transaction, the mirror is run again on the worker's input order and the same comparison is made"
